@@ -1302,13 +1302,20 @@ class AbstractWeibullRightCensoredFamily(StatelessDistributionFamily):
             cls._extract_reparametrized_parameters(x, nu, rho, xi, tau, *params)
         )
         # Hazard neg log-likelihood only for patient with event not censored
-        hazard = torch.where(
-            event_reparametrized_time > 0,
-            (rho / nu_reparametrized)
-            * ((event_reparametrized_time / nu_reparametrized) ** (rho - 1.0)),
+        # The log-hazard is computed in log-space: forming the hazard first makes it under/overflow
+        # for peaked laws (large rho), and its log was then lost (0, or inf).
+        positive_time = event_reparametrized_time > 0
+        safe_time = torch.where(
+            positive_time,
+            event_reparametrized_time,
+            torch.ones_like(event_reparametrized_time),
+        )
+        log_hazard = torch.where(
+            positive_time,
+            torch.log(rho / nu_reparametrized)
+            + (rho - 1.0) * torch.log(safe_time / nu_reparametrized),
             -constants.INFINITY,
         )
-        log_hazard = torch.where(hazard > 0, torch.log(hazard), hazard)
         log_hazard = torch.where(event_bool != 0, log_hazard, 0.0)
         return log_hazard
 
